@@ -44,7 +44,7 @@ func c19GenFile(r *Rng, idx int, force int) c19File {
 	var tables []string // global tables that can get members
 	var ltables []string
 	for i := 0; i < nStat; i++ {
-		switch r.Intn(21) {
+		switch r.Intn(22) {
 		case 0:
 			v := nm("Loc")
 			sb.WriteString(fmt.Sprintf("local %s = %d\n", v, i))
@@ -113,6 +113,19 @@ func c19GenFile(r *Rng, idx int, force int) c19File {
 			v, g := nm("inner"), nm("InnerGlob")
 			sb.WriteString(fmt.Sprintf("do\n  local %s = 1\n  %s = %s\nend\n", v, g, v))
 			wants = append(wants, want{g, "global-assigned-in-block", true})
+		case 21:
+			// control statements at chunk level with several branches, between the declarations (the scope bookkeeping of
+			// the chunk must come out even)
+			v := nm("cond")
+			switch r.Intn(3) {
+			case 0:
+				sb.WriteString(fmt.Sprintf("local %s = %d\nif %s > 1 then\n  print(1)\nelse\n  print(2)\nend\n", v, i, v))
+			case 1:
+				sb.WriteString(fmt.Sprintf("local %s = %d\nif %s == 1 then\n  print(1)\nelseif %s == 2 then\n  print(2)\nelseif %s == 3 then\n  print(3)\nelse\n  print(4)\nend\n", v, i, v, v, v))
+			default:
+				sb.WriteString(fmt.Sprintf("local %s = %d\nif %s then print(1) elseif not %s then print(2) end\n", v, i, v, v))
+			}
+			wants = append(wants, want{v, "top-level-local", false})
 		case 20:
 			// a local declared without a value and assigned a table constructor later
 			v, m2 := nm("FwdTab"), nm("fwdmemfn")
